@@ -182,7 +182,11 @@ func run() int {
 	defer os.RemoveAll(runDir)
 
 	var jobs []*job
+	only := os.Getenv("VERIF_ONLY") // development aid: run only the named units (comma-separated); never set by registered commands
 	for _, u := range p.Units {
+		if only != "" && !strings.Contains(","+only+",", ","+u.Test+",") {
+			continue
+		}
 		if replay != "" && !u.ReplayOnly && u.Test != "TestReplay" {
 			continue
 		}
